@@ -206,6 +206,28 @@ def execute(program, ctx, mode):
                             'absent-but-defined' if got[n] is None else ('present-but-undefined' if want is None else 'not-first-definer')),
                             {'iface': spy.lbl, 'name': n, 'iro': iro})
 
+    odd_world = h64(program.get('seed') or 0, 'odd-object-world') % 5 == 0
+    ifaces_only_world = not (W.get('decls') or [])
+
+    class FalsyAttribute(Attribute):
+        def __bool__(self):
+            return False
+
+        def __len__(self):
+            return 0
+
+    class FancyIC(InterfaceClass):
+        def __bool__(self):
+            return False
+
+        def __len__(self):
+            return 0
+
+        def __hash__(self):
+            return hash(('fancy', self.__name__, self.__module__))
+    if odd_world:
+        ctx.probe('odd-object-world')
+
     def tagval(lbl, t, v):
         """the value stored under a tag: usually a tuple naming its definer; sometimes a value that coincides with what
         callers pass as the default (None, 0) -- an override to such a value must still win over a farther ancestor"""
@@ -221,7 +243,8 @@ def execute(program, ctx, mode):
         d = {}
         for n, k in iat.items():
             if k == 'attr':
-                d[n] = Attribute('%s.%s' % (lbl, n))
+                # in "odd-object" worlds some descriptions are instances of an Attribute subclass that is false in a boolean context
+                d[n] = (FalsyAttribute if (odd_world and h64(lbl, n, 'falsy-attr') % 2) else Attribute)('%s.%s' % (lbl, n))
             else:
                 f = (lambda self, x=1: None)
                 f.__name__ = n
@@ -232,7 +255,11 @@ def execute(program, ctx, mode):
             ctx.probe('strict-skip-inconsistent-new')
             counters['I'] -= 1
             return None
-        I = InterfaceClass(real_name or lbl, real_bases, d, __module__='zisim.g')
+        # ... and some interfaces are instances of an InterfaceClass subclass that is false in a boolean context and hashes in its
+        # own (equality-consistent) way.  (An interface named like one of its own bases was tried and dropped: `extends` is defined
+        # with name-based inequality, so such a pair answers False by design.)
+        IC = FancyIC if (odd_world and h64(lbl, 'fancy-interface-class') % 2) else InterfaceClass
+        I = IC(real_name or lbl, real_bases, d, __module__='zisim.g')
         for t, v in itg.items():
             I.setTaggedValue(t, tagval(lbl, t, v))
         if iiv:
